@@ -530,3 +530,17 @@ async fn proxy_tcp_connection_data_forwarding(
 
     Ok(())
 }
+
+/// Verification hooks (compiled only with `--cfg anytls_rs_verif`).
+#[cfg(anytls_rs_verif)]
+pub mod handler_verif_hooks {
+    /// the server-side destination parser: (address text, port)
+    pub async fn read_socks_addr(
+        stream: std::sync::Arc<crate::session::Stream>,
+    ) -> Result<(String, u16), String> {
+        super::read_socks_addr(stream)
+            .await
+            .map(|a| (a.addr, a.port))
+            .map_err(|e| e.to_string())
+    }
+}
